@@ -10,7 +10,8 @@
 (*   the walked node W and its live descendants in *source* pre-order,        *)
 (*   T[1] = W with d = 0; e = the node passes the `all` filter of the walk.   *)
 (* Event  [i : index into a snapshot, lv : leaving?]                           *)
-(* Settings cfg : [on : "enter"|"leave"|"both", back, recurse, self, scope]   *)
+(* Settings cfg : [on : "enter"|"leave"|"both", back, recurse, self, scope,   *)
+(*                 rootleave]                                                 *)
 EXTENDS Integers, Sequences, FiniteSets
 
 Serials(T) == {T[i].s : i \in 1..Len(T)}
@@ -30,17 +31,20 @@ Rev(s) == [k \in 1..Len(s) |-> s[Len(s) + 1 - k]]
 
 (* The order in which an undisturbed walk of T yields: parents on entry       *)
 (* and/or on leaving, children in source order (reversed with back).          *)
-RECURSIVE Ev(_, _, _, _), EvList(_, _, _, _)
-Ev(T, i, on, back) ==
-  LET ks == IF back THEN Rev(KidsSeq(T, i)) ELSE KidsSeq(T, i) IN
-  (IF T[i].e /\ on # "leave" THEN <<[i |-> i, lv |-> FALSE]>> ELSE <<>>)
-    \o EvList(T, ks, on, back)
-    \o (IF T[i].e /\ on # "enter" THEN <<[i |-> i, lv |-> TRUE]>> ELSE <<>>)
-EvList(T, ks, on, back) == IF ks = <<>> THEN <<>> ELSE Ev(T, Head(ks), on, back) \o EvList(T, Tail(ks), on, back)
+(* RootLeaveUnfiltered (named deviation, what the code does): the last yield  *)
+(* of the walked node itself on leaving is not subject to the `all` filter    *)
+(* (cfg.rootleave; search() filters it again by its pattern).                 *)
+RECURSIVE Ev(_, _, _), EvList(_, _, _)
+Ev(T, i, cfg) ==
+  LET ks == IF cfg.back THEN Rev(KidsSeq(T, i)) ELSE KidsSeq(T, i) IN
+  (IF T[i].e /\ cfg.on # "leave" THEN <<[i |-> i, lv |-> FALSE]>> ELSE <<>>)
+    \o EvList(T, ks, cfg)
+    \o (IF (T[i].e \/ (i = 1 /\ cfg.rootleave)) /\ cfg.on # "enter" THEN <<[i |-> i, lv |-> TRUE]>> ELSE <<>>)
+EvList(T, ks, cfg) == IF ks = <<>> THEN <<>> ELSE Ev(T, Head(ks), cfg) \o EvList(T, Tail(ks), cfg)
 
 Events(T, cfg) ==
   IF T = <<>> THEN <<>>
-  ELSE LET all == Ev(T, 1, cfg.on, cfg.back) IN
+  ELSE LET all == Ev(T, 1, cfg) IN
        IF cfg.self THEN all ELSE SelectSeq(all, LAMBDA e : e.i # 1)
 
 PosOf(E, ev) == IF \E k \in 1..Len(E) : E[k] = ev THEN CHOOSE k \in 1..Len(E) : E[k] = ev ELSE 0
@@ -69,12 +73,17 @@ Optional(T, i, stale) == \E a \in Anc(T, i) \cup {i} : T[a].s \in stale
 (* the recursion settings.  The next yield must be the first candidate that  *)
 (* is not optional, or an optional one before it; the walk may only end if   *)
 (* no mandatory candidate is left.                                           *)
+(* A node replaced in place may change kind: whether it passes the filter is  *)
+(* read from T1 for nodes that are still alive (the code re-tests on leaving).*)
+NowEligible(T0, T1) ==
+  [i \in 1..Len(T0) |-> IF T0[i].s \in Serials(T1) THEN [T0[i] EXCEPT !.e = T1[IdxOf(T1, T0[i].s)].e] ELSE T0[i]]
+
 Follows(T0, ev, T1, cfg, entered, opened) ==
-  LET E0  == Events(T0, cfg)
+  LET E0  == Events(NowEligible(T0, T1), cfg)
       pos == PosOf(E0, ev)
       ok(e) == LET s == T0[e.i].s IN
                /\ s \in Serials(T1)
-               /\ IF e.lv /\ cfg.on = "both" THEN s \in entered ELSE s \notin entered
+               /\ IF e.lv /\ cfg.on = "both" THEN (s \in entered \/ e.i = 1) ELSE s \notin entered
                /\ Reach(T0, e.i, cfg, opened)
   IN IF pos = 0 THEN <<>> ELSE SelectSeq(SubSeq(E0, pos + 1, Len(E0)), ok)
 
@@ -83,14 +92,19 @@ AfterDead(T0, ev, T1, cfg, entered, opened, stale) ==
       hard == {k \in 1..Len(C) : ~Optional(T0, C[k].i, stale)}
       k1   == IF hard = {} THEN Len(C) ELSE CHOOSE k \in hard : \A h \in hard : k <= h
       pick == IF cfg.scope THEN 1..Len(C) ELSE 1..k1       \* scope rules are not modelled: weak form
-  IN [allowed |-> {[s |-> T0[C[k].i].s, lv |-> C[k].lv] : k \in pick},
-      mayStop |-> hard = {} \/ cfg.scope]
+      old  == {[s |-> T0[C[k].i].s, lv |-> C[k].lv] : k \in pick}
+      \* bottom-up walks reach nodes put below a pending candidate during the park before the candidate itself
+      new  == IF cfg.on # "leave" THEN {}
+              ELSE {[s |-> T1[j].s, lv |-> TRUE] : j \in {j \in 1..Len(T1) :
+                       /\ T1[j].s \notin Serials(T0) /\ T1[j].e
+                       /\ \E a \in Anc(T1, j) : [s |-> T1[a].s, lv |-> TRUE] \in old}}
+  IN [allowed |-> old \cup new, mayStop |-> hard = {} \/ cfg.scope]
 
 (* ---- "after replacing the current node its new children are walked next"  *)
 (* ---- and send(True): the first event below the (new) current node ------- *)
 FirstBelow(T1, s, cfg, opened) ==
   LET i  == IdxOf(T1, s)
-      E  == Ev(T1, i, cfg.on, cfg.back)
+      E  == Ev(T1, i, cfg)
       in == SelectSeq(E, LAMBDA e : e.i \in Desc(T1, i) /\ ~e.lv /\ Reach(T1, e.i, cfg, opened))
   IN IF i = 0 \/ in = <<>> THEN {} ELSE {[s |-> T1[in[1].i].s, lv |-> FALSE]}
 
